@@ -20,6 +20,7 @@ func checkC01(c *Ctx, r *Report) {
 		r.Fail("anchor", "package fbb not found")
 		return
 	}
+	borrowRule(c, r, "C01-borrow", "fbb")
 	pr := newProver(c)
 	closeRule(c, r, "C01-close")
 
